@@ -195,6 +195,11 @@ func broken(req []byte, p Params) string {
 		if r := hashRule(p, "revealValue", rv); r != "" {
 			return r
 		}
+		// the DID suffix is the hash of the create's suffix data; it may stem from an algorithm of an earlier protocol
+		// version, so only the length limit is applied to it here
+		if ds, _ := vstr(m, "didSuffix"); uint(len(ds)) > p.HashLength {
+			return fmt.Sprintf("didSuffix longer (%d) than maxOperationHashLength %d", len(ds), p.HashLength)
+		}
 		sdat, _ := vstr(m, "signedData")
 		parts := strings.Split(sdat, ".")
 		if len(parts) != 3 {
@@ -421,7 +426,7 @@ func drawSpec(t *rapid.T) reqSpec {
 // mutation of one field of a valid request (re-signing nothing: intake does not verify signatures).
 func mutations() []string {
 	return []string{"none", "hash-other-alg", "hash-malformed", "hash-too-long", "hash-unknown-code", "alg-disabled", "crv-disabled", "nonce-wrong-size", "patch-disabled", "reveal-mismatch",
-		"alg-case-variant", "crv-case-variant", "short-digest", "reveal-of-other-key", "reveal-of-other-key-signed-own", "reveal-respelled", "patch-unknown-action", "delta-missing", "signed-data-missing"}
+		"alg-case-variant", "crv-case-variant", "short-digest", "reveal-of-other-key", "reveal-of-other-key-signed-own", "reveal-respelled", "patch-unknown-action", "delta-missing", "signed-data-missing", "did-suffix-over-long"}
 }
 
 func mutate(t *rapid.T, s reqSpec, mut string, p *Params) []byte {
@@ -518,6 +523,16 @@ func mutate(t *rapid.T, s reqSpec, mut string, p *Params) []byte {
 				req["revealValue"] = asm.Reveal(keys.Get(s.kt, "c10", 9), s.code)
 				own := asm.Reveal(sg.RevealKey, s.code)
 				resign(req, sg, func(signed map[string]interface{}, _ map[string]interface{}) { signed["revealValue"] = own })
+			}
+		case "did-suffix-over-long":
+			// the DID suffix of an update / recover / deactivate is a hash field too: longer than the maximum hash length
+			// (a deactivate signs its suffix, the others do not)
+			if _, ok := req["didSuffix"].(string); ok {
+				long := strings.Repeat("E", int(p.HashLength)+rapid.IntRange(1, 40).Draw(t, "suffixExcess"))
+				req["didSuffix"] = long
+				if sg != nil && sg.Type == "deactivate" {
+					resign(req, sg, func(signed map[string]interface{}, _ map[string]interface{}) { signed["didSuffix"] = long })
+				}
 			}
 		case "reveal-respelled":
 			// another base64url spelling of the right hash: unused trailing bits of the last character, or a line break
